@@ -290,3 +290,10 @@ send_packet_callee = Spec(
 send_packet_callee.vararg = 'args'
 Spec.registry.remove(send_packet_callee)
 Spec.registry.remove(_rec_contract) if _rec_contract in Spec.registry else None
+
+
+# simultaneous initiation / _kexinit_sent bookkeeping and staged-key clearing (_process_kexinit, _process_newkeys)
+try:
+    from .c11_kexinit import *       # noqa: F401,F403
+except ImportError:                  # pragma: no cover
+    pass
